@@ -932,6 +932,19 @@ def aimed_shapes() -> list[tuple[str, list[list[tuple]]]]:
         ("call-cross", [[cl(0, 1), R], [pl, R]]),
         ("call-self", [[pl, cl(0), R]]),
         ("call-then-unreachable", [[cl(3), pl, R, pl, R]]),
+        # a subroutine that nothing but a call leads to, stored behind the closing jump of a loop / behind a terminator, in the
+        # same and in another routine (the call must be recorded as a use of the label like a jump)
+        ("call-only-target-behind-loop-cross", [[pl, cl(3, 1), R], [pl, pl, jp(0, 1), pl, R]]),
+        ("call-only-target-behind-loop", [[cl(4), pl, br(1), R, pl, R]]),
+        ("call-only-target-behind-loop-2", [[pl, cl(4), jp(0), R, pl, R]]),
+        ("call-only-target-behind-return-cross", [[cl(2, 1), E], [pl, R, pl, pl, R]]),
+        ("call-only-target-in-earlier-routine", [[pl, jp(0, 0), pl, R], [cl(2, 0), R]]),
+        # a call as the LAST statement of an else / if / elseif block that has another block laid out behind it (a call does not
+        # end the flow: the jump over the following block must be there when the text is compiled again)
+        ("else-block-is-one-call-into-if-block", [[pl, br(4), cl(5), jp(7), pl, pl, R, pl, E]]),
+        ("else-block-is-one-call", [[br(3), cl(6), jp(4), pl, pl, R, pl, R]]),
+        ("else-block-ends-in-call", [[br(4), pl, cl(7), jp(5), pl, pl, R, pl, R]]),
+        ("if-block-ends-in-call-before-elseif", [[br(4), br(7), pl, jp(9), pl, cl(10), jp(9), pl, jp(9), pl, R, pl, R]]),
         ("hold-then-return", [[pl, H, R]]),
         ("hold-then-plain", [[pl, H, pl, R]]),
         ("hold-mid-targeted", [[br(3), pl, H, R]]),
